@@ -121,6 +121,14 @@ def doubleSec [DecidableEq κ] (c : Cfg κ) (fuel curHp : Nat) : Section κ ν :
 def rehashSec [DecidableEq κ] (c : Cfg κ) (n : Nat) : Section κ ν := fun t => ((t.rehash c false n).1, some .unit)
 def reserveSec [DecidableEq κ] (c : Cfg κ) (n : Nat) : Section κ ν := fun t => ((t.reserve c false n).1, some .unit)
 
+/-- the locked part of `rehash(n)` / `reserve(n)` alone: `cuckoo_expand_simple(new_hp)` under all locks.  The public members
+compare the request with the hashpower BEFORE taking the locks (an unlocked read); a request that differed from the
+hashpower when it was issued therefore rebuilds the table even if, by the time it owns the locks, a locked section or another
+resize has given the table exactly the requested size (found by the section replay K3(ii): `rehashSec` alone did not
+reproduce such executions).  `rehashSec c n t = expandSec c n t` whenever `n ≠ t.hp`. -/
+def expandSec [DecidableEq κ] (c : Cfg κ) (newHp : Nat) : Section κ ν := fun t =>
+  ((expandSimple c false false (c.fuel t.cur.cells.size) t newHp).1, some .unit)
+
 /-- `clear()` under all locks -/
 def clearSec (c : Cfg κ) : Section κ ν := fun t => (t.clear c, some .unit)
 
